@@ -18,6 +18,8 @@ def key(ev):
         kinds = "+".join(k for k in ("grants", "weights", "thresholds", "creates", "locks", "unlocks", "claims") if r.get(k))
         return "blockmsg/%s/impl-ok=%s" % (kinds or "gas-only", ev.get("ok"))
     if e == "end":
+        if not ev.get("cometOk") and "empty set" in (ev.get("cometErr") or ""):
+            return "end/comet-refuses-empty-validator-set"
         return "end/cometOk=%s" % ev.get("cometOk")
     if e == "halt":
         return "halt/%s" % (ev.get("err", "")[:40].replace(" ", "_"))
